@@ -280,8 +280,13 @@ def _check_c04(jobs, results, rep, tot):
                 kinds.setdefault(kk, job)
         if len(kinds) > 1:
             (k0, j0), (k1, j1) = list(kinds.items())[:2]
+            cls = None
+            from .refmodel import Topo
+            dl = [j for k_, j in ((k0, j0), (k1, j1)) if k_ == "deadlock"]
+            if dl and all(j["cfg"].get("lazy", True) for j in dl) and Topo(j0["scen"]).group_reentry():
+                cls = "lazy-wait-across-group-reentry"
             rep.report(
-                dict(prop="C04", kind="outcome-differs", cls=None,
+                dict(prop="C04", kind="outcome-differs", cls=cls,
                      msg=f"{name}: run() ends with {k0} under [{_cfgs(j0['cfg'])}] but with {k1} "
                          f"under [{_cfgs(j1['cfg'])}]"),
                 dict(kind="schedule-pair", scenario=j0["scen"], name=name,
